@@ -281,6 +281,16 @@ class SchedCondition:
         entry = [me, False]
         self.waiters.append(entry)
         self.mutex.owner = None
+        if timeout is not None:
+            # a timed wait may expire at any moment a loaded machine chooses: the thread gives the processor away once
+            # (free switching point, like sleep) and, unless it was notified meanwhile, returns False
+            self.stats["timed_wait"] = self.stats.get("timed_wait", 0) + 1
+            s.on_sleep(0)
+            if not entry[1]:
+                self.waiters = [e for e in self.waiters if e is not entry]
+            s.block_until(f"mutex:{self.mutex.name}", lambda: self.mutex.owner is None)
+            self.mutex.owner = me
+            return entry[1]
         s.block_until(f"wait:{self.name}", lambda: entry[1])
         s.block_until(f"mutex:{self.mutex.name}", lambda: self.mutex.owner is None)
         self.mutex.owner = me
@@ -305,8 +315,12 @@ class SchedCondition:
 
     def wait_for(self, predicate, timeout=None):
         result = predicate()
+        expirations = 0
         while not result:
-            self.wait()
+            if timeout is not None and expirations >= 2:
+                break               # the overall timeout has run out
+            if not self.wait(timeout) and timeout is not None:
+                expirations += 1
             result = predicate()
         return result
 
